@@ -23,6 +23,8 @@ CHECKS = {
              note='bounded in shape, universal in data; permutation/sponge opaque (C06/C07)', tech='abstract interpretation of LLVM IR with shape parameters fixed by constant propagation vs reference tree over hash-consed opaque permutation terms'),
  'C09': dict(cat='proof', text='scalar cubic-extension routines interpreted abstractly and expanded as polynomials mod p; equality with schoolbook arithmetic in F_p[x]/(x^3-x-1) under all aliasing patterns; inv by the cofactor identity; isOne by exhaustive path exploration over its residue tests; batchInverse over opaque extension elements for lengths in a stated bound (1..32 quick, 1..256 thorough)',
              note='trusts clang lowering, glv IR semantics, scalar field contracts (C01), irreducibility of x^3-x-1; batchInverse bounded in length', tech=AI + ': polynomial normal forms (ring identities), path exploration for predicates'),
+ 'C10': dict(cat='proof', text='inv: must-exit rule on the CFG for operands congruent to zero (guard = residue test, both representations refused, nothing stored); inductive loop argument: one abstract iteration of the extended-Euclid loop from a havocked state preserves t*a = r, newt*a = newr (mod p), entry establishes it, exit returns t; div = a*inv(b); exp = base^e for a bounded exponent set (>260 exponents incl. all 2^k, 2^k+-1, 2^64-1) plus a halving ranking function for termination',
+             note='not decided: that the remainder sequence of inv is the integer Euclidean one (termination of that loop, r_exit = 1); exp bounded in the exponent', tech='CFG must-pass-through rule + abstract interpretation (residue normal forms; loop invariant by one abstract iteration from a havocked state) + ranking-function pattern'),
  'C11': dict(cat='proof', text='as C02 for the 14 contracted AVX512 kernels on the -D__AVX512__ configuration, all 8 lanes',
              note='as C02; the AVX512 code is never compiled by the shipped test build', tech='abstract interpretation (limb-split integer polynomials + intervals + carry trace partitioning)'),
  'C12': dict(cat='proof', text='(1) static rules on each of the 16/20 outlined parallel regions (no write to captured variables, no thread-identity/reduction/atomic/dynamic-schedule construct, static schedule); (2) per-iteration footprints of every region instance for bounded shapes (transforms, Merkle builders, parcpy/parSetZero for all sizes 0..40 x thread arguments -1..9): pairwise free of write/write and write/read overlap on non-private memory, for all data and therefore all schedules and team sizes',
@@ -35,8 +37,12 @@ CHECKS = {
              note='trusts the shape-code grammar (frozen table, one documented exception), kernel contracts, glv IR semantics', tech=AI + ' vs signature-derived oracle'),
  'C17': dict(cat='proof', text='all copy/add/sub/mul _batch/_avx/_avx512 overloads interpreted on symbolic operands, strides and index arrays against a signature-derived specification; exact write set and read footprint',
              note='trusts the role grammar, kernel contracts, glv IR semantics; parcpy/parSetZero are decided under C12/C18 rules', tech=AI + ' vs signature-derived oracle'),
+ 'C18': dict(cat='proof', text='R-ALLOC (deallocator matches every allocation kind reaching it), R-SHIFT, R-ALIGN (aligned vector accesses / aligned-contract calls through provably aligned pointers) for all shapes; footprint-in-extent and no uninitialised read for 369 wrapper / matrix / extension routines; object lifetimes construct-use-destroy on an abstract heap with allocation kinds; memory-safety sinks of the bounded-shape tiers (transforms, sponge, Merkle) with exact-size buffers',
+             note='stack exhaustion by parameter-sized VLAs and shapes outside the bounds are not decided', tech='alloc/release pairing and alignment typestate rules over LLVM IR + abstract interpretation with an abstract heap (extents, allocation kinds, initialisation state)'),
  'C19': dict(cat='model_checking', text='reachability closure over the abstract state of one transform object: every operation of the bounded alphabet is applied in every distinct reachable object state (fields + owned tables), each result compared with the specification for all data; closure covers all finite call sequences over the alphabet',
              note='alphabet bounded (capacity <= 16 quick / 64 thorough, two phase/block settings, ncols = 2); the implementation itself is interpreted (no extracted model)', tech='abstract interpretation + explicit reachability over canonicalised object states'),
+ 'C20': dict(cat='other', text='tables clause only: the three 33-row device tables are extracted from ntt_goldilocks.cuh and evaluated by clang as C constant initialisers; omegas[i] = CPU W[i], root chain, omegas*omegas_inv = 1, domain_size_inverse*2^i = 1 (mod p), MOD = p, W = 2^32-1. The PTX arithmetic clause is NOT decided',
+             note='no CUDA front end in this image: gl64_t.cuh cannot be parsed, so the device arithmetic is outside any resolved program; declined rather than text-matched', tech='constant-table relations evaluated from compiler-parsed initialisers'),
 }
 NA = {}
 man = {
